@@ -100,6 +100,15 @@ func (bp BundlePart) replaceBundle(b bpv7.Bundle) error {
 	return os.Rename(tmpFilename, bp.Filename)
 }
 
+// fragmentPayloadLen is the length of a Bundle's payload or zero, if there is no payload block.
+func fragmentPayloadLen(b bpv7.Bundle) int {
+	if payloadBlock, err := b.PayloadBlock(); err != nil {
+		return 0
+	} else {
+		return len(payloadBlock.Value.(*bpv7.PayloadBlock).Data())
+	}
+}
+
 // deleteBundle removes the serialized Bundle from the disk.
 func (bp BundlePart) deleteBundle() error {
 	return os.Remove(bp.Filename)
